@@ -215,3 +215,261 @@ Proof.
       rewrite (imap_set_eq _ _ _ M) in B. lia.
     + inversion H; subst. lia.
 Qed.
+
+(* ================================================================== *)
+(* 2. the controller map                                                *)
+
+Definition subs_of (m : list (cname * inst)) : list rkey :=
+  flat_map (fun ni => inst_subs (snd ni)) m.
+
+Lemma subs_of_cons : forall x j m, subs_of ((x, j) :: m) = (inst_subs j ++ subs_of m)%list.
+Proof. reflexivity. Qed.
+
+Lemma subs_of_app : forall a b, subs_of (a ++ b)%list = (subs_of a ++ subs_of b)%list.
+Proof.
+  intros a b. induction a as [|[x j] a IH]; [reflexivity|].
+  rewrite <- app_comm_cons, !subs_of_cons, IH, app_assoc. reflexivity.
+Qed.
+
+Lemma cnt_name_fst : forall n m, cnt_name n m = cnt n (map fst m).
+Proof.
+  intros n m. induction m as [|[x j] m IH]; simpl; [reflexivity|]. rewrite IH. reflexivity.
+Qed.
+
+Lemma one_per_name_iff : forall st,
+  one_per_nameb st = true <-> forall n, cnt_name n (insts st) <= 1.
+Proof.
+  intro st. unfold one_per_nameb. rewrite nodupb_cnt. split; intros H n.
+  - rewrite cnt_name_fst. apply H.
+  - rewrite <- cnt_name_fst. apply H.
+Qed.
+
+Lemma cnt_name_app : forall n a b, cnt_name n (a ++ b)%list = cnt_name n a + cnt_name n b.
+Proof.
+  intros n a b. induction a as [|[x j] a IH]; simpl; [reflexivity|]. rewrite IH. lia.
+Qed.
+
+Lemma cnt_name_iremove : forall n' n m,
+  cnt_name n' (iremove n m) = if String.eqb n' n then 0 else cnt_name n' m.
+Proof.
+  intros n' n m. induction m as [|[x j] m IH]; simpl.
+  - destruct (String.eqb n' n); reflexivity.
+  - destruct (String.eqb n x) eqn:E.
+    + apply String.eqb_eq in E. subst x. rewrite IH. destruct (String.eqb n' n); reflexivity.
+    + simpl. rewrite IH. destruct (String.eqb n' n) eqn:E2; [|reflexivity].
+      apply String.eqb_eq in E2. subst n'. rewrite E. reflexivity.
+Qed.
+
+Lemma cnt_name_iset : forall n' n i m,
+  cnt_name n' (iset n i m) = if String.eqb n' n then 1 else cnt_name n' m.
+Proof.
+  intros n' n i m. unfold iset. rewrite cnt_name_app, cnt_name_iremove. simpl.
+  destruct (String.eqb n' n); lia.
+Qed.
+
+Lemma cnt_name_0_ifind : forall n m, cnt_name n m = 0 -> ifind n m = None.
+Proof.
+  intros n m. induction m as [|[x j] m IH]; simpl; intro H; [reflexivity|].
+  destruct (String.eqb n x); [simpl in H; lia|]. apply IH. lia.
+Qed.
+
+Lemma ifind_iremove_same : forall n m, ifind n (iremove n m) = None.
+Proof.
+  intros n m. apply cnt_name_0_ifind. rewrite cnt_name_iremove, String.eqb_refl. reflexivity.
+Qed.
+
+Lemma ifind_iremove_other : forall n' n m, n' <> n -> ifind n' (iremove n m) = ifind n' m.
+Proof.
+  intros n' n m N. induction m as [|[x j] m IH]; simpl; [reflexivity|].
+  destruct (String.eqb n x) eqn:E.
+  - apply String.eqb_eq in E. subst x. apply String.eqb_neq in N. rewrite N. exact IH.
+  - simpl. rewrite IH. reflexivity.
+Qed.
+
+Lemma ifind_none_iremove : forall n m, ifind n m = None -> iremove n m = m.
+Proof.
+  intros n m. induction m as [|[x j] m IH]; simpl; intro H; [reflexivity|].
+  destruct (String.eqb n x); [discriminate|]. rewrite (IH H). reflexivity.
+Qed.
+
+Lemma iremove_idem : forall n m, iremove n (iremove n m) = iremove n m.
+Proof. intros n m. apply ifind_none_iremove, ifind_iremove_same. Qed.
+
+Lemma ifind_app : forall n a b,
+  ifind n (a ++ b)%list = match ifind n a with Some i => Some i | None => ifind n b end.
+Proof.
+  intros n a b. induction a as [|[x j] a IH]; simpl; [reflexivity|].
+  destruct (String.eqb n x); [reflexivity|exact IH].
+Qed.
+
+Lemma iremove_app : forall n a b, iremove n (a ++ b)%list = (iremove n a ++ iremove n b)%list.
+Proof.
+  intros n a b. induction a as [|[x j] a IH]; simpl; [reflexivity|].
+  destruct (String.eqb n x); rewrite IH; reflexivity.
+Qed.
+
+Lemma ifind_iset_same : forall n i m, ifind n (iset n i m) = Some i.
+Proof.
+  intros n i m. unfold iset. rewrite ifind_app, ifind_iremove_same. simpl.
+  rewrite String.eqb_refl. reflexivity.
+Qed.
+
+Lemma ifind_iset_other : forall n' n i m, n' <> n -> ifind n' (iset n i m) = ifind n' m.
+Proof.
+  intros n' n i m N. unfold iset. rewrite ifind_app, (ifind_iremove_other _ _ _ N).
+  destruct (ifind n' m); [reflexivity|]. simpl. apply String.eqb_neq in N. rewrite N. reflexivity.
+Qed.
+
+Lemma iset_fresh : forall n i m, ifind n m = None -> iset n i m = (m ++ [(n, i)])%list.
+Proof. intros n i m H. unfold iset. rewrite (ifind_none_iremove _ _ H). reflexivity. Qed.
+
+(* the subscriptions of the map are those of n's instance plus those of the others *)
+Lemma subs_split : forall n m i, (forall x, cnt_name x m <= 1) -> ifind n m = Some i ->
+  forall k, cnt k (subs_of m) = cnt k (inst_subs i) + cnt k (subs_of (iremove n m)).
+Proof.
+  intros n. induction m as [|[x j] m IH]; intros i U F k; [discriminate|].
+  cbn [ifind iremove cnt_name] in *.
+  assert (U' : forall y, cnt_name y m <= 1) by (intro y; specialize (U y); lia).
+  destruct (String.eqb n x) eqn:E.
+  - inversion F; subst j. apply String.eqb_eq in E. subst x.
+    assert (Z : cnt_name n m = 0) by (specialize (U n); rewrite String.eqb_refl in U; lia).
+    rewrite (ifind_none_iremove _ _ (cnt_name_0_ifind _ _ Z)), subs_of_cons, cnt_app. reflexivity.
+  - rewrite !subs_of_cons, !cnt_app, (IH i U' F k). lia.
+Qed.
+
+Lemma subs_iremove_le : forall n m k, (forall x, cnt_name x m <= 1) ->
+  cnt k (subs_of (iremove n m)) <= cnt k (subs_of m).
+Proof.
+  intros n m k U. destruct (ifind n m) as [i|] eqn:F.
+  - rewrite (subs_split _ _ _ U F k). lia.
+  - rewrite (ifind_none_iremove _ _ F). lia.
+Qed.
+
+Lemma subs_iset : forall n i m k,
+  cnt k (subs_of (iset n i m)) = cnt k (subs_of (iremove n m)) + cnt k (inst_subs i).
+Proof.
+  intros n i m k. unfold iset. rewrite subs_of_app, cnt_app, subs_of_cons, cnt_app. simpl. lia.
+Qed.
+
+(* ================================================================== *)
+(* 3. the constructors                                                  *)
+
+Lemma new_hook_no_panic : forall h, new_hook h <> Panic.
+Proof.
+  intros [| |w]; simpl; try discriminate. unfold new_webhook_executor.
+  destruct (negb (webhook_url_ok w)); [discriminate|]. simpl.
+  destruct (w_etag w); simpl; discriminate.
+Qed.
+
+Lemma hook_panics_false : forall h, hook_panics h = false.
+Proof.
+  intro h. unfold hook_panics. pose proof (new_hook_no_panic h) as N.
+  destruct (new_hook h); simpl; congruence.
+Qed.
+
+(* what every call of a constructor guarantees, on any factory *)
+Definition start_post (s : spec) (f : factory) (out : factory * res inst) : Prop :=
+  snd out <> Panic /\
+  (forall k, cnt k f <= cnt k (fst out)) /\
+  (forall i, snd out = Ok i ->
+     i_spec i = s /\ i_related i = [] /\ forall k, cnt k (i_subs i) + cnt k f <= cnt k (fst out)) /\
+  (spec_distinctb s = true ->
+     forall k, cnt k (fst out) = cnt k f + match snd out with Ok i => cnt k (i_subs i) | _ => 0 end).
+
+Lemma post_same : forall s f, start_post s f (f, Err).
+Proof.
+  intros s f. unfold start_post. simpl. split; [discriminate|]. split; [auto|].
+  split; [discriminate|]. intros _ k. lia.
+Qed.
+
+Lemma post_fail_closing : forall s f held f2,
+  (forall k, cnt k held + cnt k f <= cnt k f2) ->
+  (spec_distinctb s = true -> forall k, cnt k held + cnt k f = cnt k f2) ->
+  start_post s f (fail_closing held f2).
+Proof.
+  intros s f held f2 L E. unfold fail_closing.
+  destruct (release_all_ex held f2) as [g Hg].
+  { intro k. specialize (L k). lia. }
+  rewrite Hg. pose proof (release_all_cnt _ _ _ Hg) as C. unfold start_post. simpl.
+  split; [discriminate|]. split.
+  { intro k. specialize (C k). specialize (L k). lia. }
+  split; [discriminate|]. intros D k. specialize (C k). specialize (E D k). lia.
+Qed.
+
+Lemma post_ok : forall s f held f2,
+  (forall k, cnt k held + cnt k f <= cnt k f2) ->
+  (spec_distinctb s = true -> forall k, cnt k held + cnt k f = cnt k f2) ->
+  start_post s f (f2, Ok (mkInst s held [])).
+Proof.
+  intros s f held f2 L E. unfold start_post. simpl. split; [discriminate|]. split.
+  { intro k. specialize (L k). lia. }
+  split.
+  { intros i Hi. inversion Hi; subst. simpl. auto. }
+  intros D k. specialize (E D k). lia.
+Qed.
+
+Lemma start_composite_post : forall s f, start_post s f (start_composite s f).
+Proof.
+  intros s f. unfold start_composite.
+  destruct (s_parents s) as [|p ps]; [apply post_same|].
+  destruct (negb (ru_known p)); [apply post_same|].
+  destruct (existsb strategy_unknown (s_children s)); [apply post_same|].
+  destruct (negb (can_subscribe f p)); [apply post_same|].
+  cbv zeta.
+  destruct (open_informers (s_children s) [] (acquire (ru_key p) f)) as [[f2 kids] ok] eqn:Eo.
+  pose proof (open_informers_le _ _ _ _ _ _ Eo) as Hle.
+  assert (L : forall k, cnt k (kids ++ [ru_key p])%list + cnt k f <= cnt k f2).
+  { intro k. destruct (Hle k) as [_ B]. unfold acquire in B. simpl in B.
+    rewrite cnt_app. simpl. lia. }
+  assert (E : spec_distinctb s = true ->
+              forall k, cnt k (kids ++ [ru_key p])%list + cnt k f = cnt k f2).
+  { intros D k. unfold spec_distinctb in D. apply andb_true_iff in D. destruct D as [_ D].
+    assert (B : cnt k kids + cnt k (acquire (ru_key p) f) = cnt k [] + cnt k f2).
+    { apply (open_informers_eq _ _ _ _ _ _ Eo D). intros k0 _. reflexivity. }
+    unfold acquire in B. simpl in B. rewrite cnt_app. simpl. lia. }
+  pose proof (post_fail_closing s f _ f2 L E) as HF.
+  destruct ok; simpl; [|exact HF].
+  destruct (s_hooks s) as [h|]; [|exact HF].
+  rewrite !hook_panics_false.
+  destruct (hook_fails (h_sync h)); [exact HF|].
+  destruct (hook_fails (h_finalize h)); [exact HF|].
+  destruct (negb (ru_selector_ok p)); [exact HF|].
+  destruct (hook_fails (h_customize h)); [exact HF|].
+  apply post_ok; assumption.
+Qed.
+
+Lemma start_decorator_post : forall s f, start_post s f (start_decorator s f).
+Proof.
+  intros s f. unfold start_decorator.
+  destruct (s_hooks s) as [h|]; [|apply post_same].
+  rewrite !hook_panics_false.
+  destruct (hook_fails (h_sync h)); [apply post_same|].
+  destruct (hook_fails (h_finalize h)); [apply post_same|].
+  destruct (hook_fails (h_customize h)); [apply post_same|].
+  destruct (existsb _ (s_parents s)); [apply post_same|].
+  destruct (existsb strategy_unknown (s_children s)); [apply post_same|].
+  destruct (open_informers (s_parents s) [] f) as [[f1 pars] ok1] eqn:Eo1.
+  pose proof (open_informers_le _ _ _ _ _ _ Eo1) as Hle1.
+  assert (E1 : spec_distinctb s = true -> forall k, cnt k pars + cnt k f = cnt k f1).
+  { intros D k. unfold spec_distinctb in D. apply andb_true_iff in D. destruct D as [D _].
+    assert (B : cnt k pars + cnt k f = cnt k [] + cnt k f1).
+    { apply (open_informers_eq _ _ _ _ _ _ Eo1 D). intros k0 _. reflexivity. }
+    simpl in B. lia. }
+  destruct ok1; simpl.
+  2:{ apply post_fail_closing; [|exact E1]. intro k. destruct (Hle1 k) as [_ B]. simpl in B. lia. }
+  destruct (open_informers (s_children s) [] f1) as [[f2 kids] ok2] eqn:Eo2.
+  pose proof (open_informers_le _ _ _ _ _ _ Eo2) as Hle2.
+  assert (L : forall k, cnt k (kids ++ pars)%list + cnt k f <= cnt k f2).
+  { intro k. destruct (Hle1 k) as [_ B1]. destruct (Hle2 k) as [_ B2]. simpl in B1, B2.
+    rewrite cnt_app. lia. }
+  assert (E : spec_distinctb s = true -> forall k, cnt k (kids ++ pars)%list + cnt k f = cnt k f2).
+  { intros D k. specialize (E1 D k).
+    unfold spec_distinctb in D. apply andb_true_iff in D. destruct D as [_ D].
+    assert (B : cnt k kids + cnt k f1 = cnt k [] + cnt k f2).
+    { apply (open_informers_eq _ _ _ _ _ _ Eo2 D). intros k0 _. reflexivity. }
+    simpl in B. rewrite cnt_app. lia. }
+  destruct ok2; simpl; [apply post_ok|apply post_fail_closing]; assumption.
+Qed.
+
+Lemma start_post_holds : forall fl s f, start_post s f (start fl s f).
+Proof. intros [|] s f; [apply start_composite_post|apply start_decorator_post]. Qed.
